@@ -16,7 +16,9 @@ RULE = ("all 63 non-empty route tables over {S6a, Gx} x {316, 317, 272} x all hi
         "(quick) over (registered pair x 6 handler outcomes); thorough: histories of <= 3 on every table with "
         "<= 2 routes and on the full table; plus every builtin Exception subclass (and queue.Empty, a user-defined "
         "one) x 7 argument shapes {(), text, format-like text, bytes, None, two values, empty tuple} as handler "
-        "outcome on two tables. A case is one history on one route table; distinct by "
+        "outcome on two tables, every class of bromelia.exceptions likewise; every outcome (plus an answer lacking "
+        "the Session-Id) x request shapes {full, without Origin-Host, without Origin-Realm, without both, without "
+        "Session-Id}. A case is one history on one route table; distinct by "
         "construction; non-trivial = histories with at least one non-answer outcome or >= 2 requests")
 ASSUMPTIONS = [
     "in-process Worker with a stand-in manager (vk/inproc.py); dispatch runs sequentially here, the "
@@ -34,6 +36,9 @@ S6A, GX = 16777251, 16777238
 PAIRS = [(S6A, 316), (S6A, 317), (S6A, 272), (GX, 316), (GX, 317), (GX, 272)]
 APP_SHORT = {S6A: "s6a", GX: "gx"}
 OUTCOMES = ["answer", "none", "string", "request", "value-error", "key-error"]
+# further outcomes / request shapes explored on two tables only (see _dispatch "shapes")
+EXTRA_OUTCOMES = ["answer-no-sid", "exc:lib.DiameterMessageError:1", "exc:lib.DataTypeError:0"]
+REQUEST_SHAPES = ["full", "no-origin-host", "no-origin-realm", "no-origin", "no-session-id"]
 
 
 EXC_ARGS = [(), ("handler failed",), ("{0} {x} %s %d {",), (b"\xff\xfe",), (None,), ("a", 2), ((),)]
@@ -57,6 +62,12 @@ def exception_classes():
             out[obj.__name__] = obj
     out["Empty"] = queue.Empty
     out["HandlerFailure"] = HandlerFailure
+    # the library's own errors (what a handler gets when it builds a typed answer wrongly); they derive from
+    # BaseException, not Exception
+    import bromelia.exceptions as X
+    for name, obj in sorted(vars(X).items()):
+        if isinstance(obj, type) and issubclass(obj, BaseException) and obj.__module__ == X.__name__:
+            out["lib." + name] = obj
     return out
 
 
@@ -66,13 +77,15 @@ def exception_outcomes():
         for i, args in enumerate(EXC_ARGS):
             try:
                 cls(*args)
-            except Exception:  # noqa  (e.g. UnicodeDecodeError needs five arguments)
+            except BaseException:  # noqa  (e.g. UnicodeDecodeError needs five arguments)
                 continue
             out.append(f"exc:{name}:{i}")
     return out
 
 
 def sig_outcome(outcome):
+    if outcome.startswith("exc:lib."):
+        return f"library-exception-args{outcome.rsplit(':', 1)[1]}"
     return f"exception-args{outcome.rsplit(':', 1)[1]}" if outcome.startswith("exc:") else outcome
 
 
@@ -91,6 +104,9 @@ def make_handler(rec, pair, outcome_of):
             return DiameterAnswer(command_code=pair[1], application_id=pair[0],
                                   avps=[A.SessionIdAVP(b"placeholder;0;0"), A.ResultCodeAVP(2001),
                                         A.OriginHostAVP("handler.example"), A.OriginRealmAVP("example")])
+        if outcome == "answer-no-sid":
+            return DiameterAnswer(command_code=pair[1], application_id=pair[0],
+                                  avps=[A.ResultCodeAVP(2001), A.OriginHostAVP("handler.example"), A.OriginRealmAVP("example")])
         if outcome == "none":
             return None
         if outcome == "string":
@@ -109,14 +125,16 @@ def make_handler(rec, pair, outcome_of):
     return handler
 
 
-def make_request(pair, idx):
+def make_request(pair, idx, shape="full"):
     from bromelia.base import DiameterRequest
     import bromelia.avps as A
     app, code = pair
     sid = f"req{idx}.example;{idx + 1};{app % 97}".encode()
-    req = DiameterRequest(command_code=code, application_id=app,
-                          avps=[A.SessionIdAVP(sid), A.OriginHostAVP(f"peer{idx}.example"),
-                                A.OriginRealmAVP(f"realm{idx}.peer"), A.DestinationRealmAVP("realm.local")])
+    avps = [A.SessionIdAVP(sid), A.OriginHostAVP(f"peer{idx}.example"),
+            A.OriginRealmAVP(f"realm{idx}.peer"), A.DestinationRealmAVP("realm.local")]
+    drop = {"full": (), "no-origin-host": (1,), "no-origin-realm": (2,), "no-origin": (1, 2), "no-session-id": (0,)}[shape]
+    avps = [a for i, a in enumerate(avps) if i not in drop]
+    req = DiameterRequest(command_code=code, application_id=app, avps=avps)
     req.header.hop_by_hop = 0x1000 + idx
     req.header.end_to_end = 0xf0000000 + idx
     return req
@@ -149,27 +167,31 @@ def run_history(rep, table, history, ctx=None, earlier=None):
             rep.violation(v.signature, v.what, v.witness)
     else:
         for v in reused.violations.values():
-            w = dict(v.witness, earlier_histories=[[[list(p), o] for p, o in h] for h in (earlier or [])[-30:]])
+            w = dict(v.witness, earlier_histories=[[[list(st[0])] + list(st[1:]) for st in h] for h in (earlier or [])[-30:]])
             rep.violation("C13:after-earlier-histories:" + v.signature[4:], v.what, w)
 
 
 def _run_history_on(rep, table, history, ctx, _unused):
     from bromelia.exceptions import BromeliaException
     app, workers, rec, current = ctx
-    wit = {"table": [list(p) for p in table], "history": [[list(p), o] for p, o in history]}
+    wit = {"table": [list(p) for p in table], "history": [[list(st[0])] + list(st[1:]) for st in history]}
     tsig = f"routes{len(table)}"
-    for idx, (pair, outcome) in enumerate(history):
+    for idx, step in enumerate(history):
+        pair, outcome = step[0], step[1]
+        shape = step[2] if len(step) > 2 else "full"
         current["outcome"] = outcome
-        osig = sig_outcome(outcome)
+        osig = sig_outcome(outcome) + ("" if shape == "full" else f":request-{shape}")
         rec.calls.clear()
-        req = make_request(pair, idx)
+        req = make_request(pair, idx, shape)
         raised = None
         try:
             app.callback_route(req)
         except BromeliaException as e:
             raised = e
         except BaseException as e:  # noqa
-            rep.violation(f"C13:dispatch-raises-{type(e).__name__}:{osig}",
+            import bromelia.exceptions as X
+            ename = "library-error" if type(e).__module__ == X.__name__ else type(e).__name__
+            rep.violation(f"C13:dispatch-raises-{ename}:{osig}",
                           f"callback_route raised {type(e).__name__}: {e} (step {idx}, {pair}, {outcome})", wit)
             for w in workers.values():
                 inproc.drain(w)
@@ -203,13 +225,18 @@ def _run_history_on(rep, table, history, ctx, _unused):
         byc = {}
         for c, f, v, d in avps:
             byc.setdefault((c, v), []).append(d)
-        if byc.get((263, None)) != [req.session_id_avp.data]:
-            errs.append(("session-id", f"Session-Id {byc.get((263, None))!r}"))
-        if outcome != "answer":
+        want_sid = [req.session_id_avp.data] if req.has_avp("session_id_avp") else None
+        if want_sid is not None and byc.get((263, None)) != want_sid:
+            errs.append(("session-id", f"Session-Id {byc.get((263, None))!r}, the request's is {want_sid!r}"))
+        if outcome not in ("answer", "answer-no-sid"):
             cfg = app.associations[pair[0].to_bytes(4, "big")].app.config
             want = {268: (5012).to_bytes(4, "big"), 264: cfg["LOCAL_NODE_HOSTNAME"].encode(),
-                    296: cfg["LOCAL_NODE_REALM"].encode(), 293: req.origin_host_avp.data,
-                    283: req.origin_realm_avp.data}
+                    296: cfg["LOCAL_NODE_REALM"].encode()}
+            # the requester as destination, as far as the request names it
+            if req.has_avp("origin_host_avp"):
+                want[293] = req.origin_host_avp.data
+            if req.has_avp("origin_realm_avp"):
+                want[283] = req.origin_realm_avp.data
             names = {268: "result-code", 264: "origin-host", 296: "origin-realm", 293: "destination-host",
                      283: "destination-realm"}
             for c, w in want.items():
@@ -277,6 +304,7 @@ def run(report, tier, seed):
         for first in steps:
             shards.append(("full3", first))
     # every standard exception class x argument shape, as first request of a history (followed by a normal one)
+    shards.append(("shapes", None))
     excs = exception_outcomes()
     for i in range(0, len(excs), 40):
         shards.append(("exceptions", excs[i:i + 40]))
@@ -285,6 +313,20 @@ def run(report, tier, seed):
 
 
 def _dispatch(rep, arg):
+    if arg[0] == "shapes":
+        # every handler outcome x every request shape (and the extra outcomes on full requests), each followed by
+        # a normal request
+        n = 0
+        for table in (((S6A, 316),), ((S6A, 316), (GX, 272))):
+            ctx, earlier = fresh_app(table), []
+            steps = [(o, sh) for o in OUTCOMES + EXTRA_OUTCOMES for sh in REQUEST_SHAPES]
+            for o, sh in steps:
+                for h in (((table[0], o, sh),), ((table[-1], o, sh), (table[0], "answer"))):
+                    run_history(rep, table, h, ctx, earlier)
+                    earlier.append(h)
+                    n += 1
+        rep.add(evaluations=n, distinct=n, histories=n)
+        return
     if arg[0] == "exceptions":
         n = 0
         for table in (((S6A, 316),), ((S6A, 316), (GX, 272))):
@@ -315,11 +357,11 @@ def _dispatch(rep, arg):
 def replay(w):
     rep = core.Report("C13")
     table = tuple(tuple(p) for p in w["table"])
-    history = tuple((tuple(p), o) for p, o in w["history"])
+    history = tuple((tuple(st[0]),) + tuple(st[1:]) for st in w["history"])
     if w.get("earlier_histories"):
         ctx = fresh_app(table)
         for h in w["earlier_histories"]:
-            _run_history_on(core.Report("C13"), table, tuple((tuple(p), o) for p, o in h), ctx, None)
+            _run_history_on(core.Report("C13"), table, tuple((tuple(st[0]),) + tuple(st[1:]) for st in h), ctx, None)
         _run_history_on(rep, table, history, ctx, None)
     else:
         run_history(rep, table, history)
